@@ -83,7 +83,7 @@ var buildMu sync.Mutex
 
 func driverOverlay() map[string]string {
 	return map[string]string{
-		"internal/verifx/syntax/main.go":   core.DriverSrc("syntax/main.go"),
+		"internal/verifx/syntax/main.go": core.DriverSrc("syntax/main.go"),
 		"internal/tlast/verif_export.go": core.DriverSrc("syntax/verif_export.go"),
 	}
 }
@@ -468,17 +468,17 @@ func hasFeature(combs []any, f string) bool {
 // TLC runs of the MC modules
 
 type mcParams struct {
-	Mode               string
-	Lang               int
+	Mode                string
+	Lang                int
 	MaxChars, FullChars int
-	Chars, Chars2      []string
-	MaxToks            int
-	Prune              bool
-	EmitEvery          int
-	MaxW, MaxCombs     int
-	MutW               int
-	Sem                bool
-	TokSel             string
+	Chars, Chars2       []string
+	MaxToks             int
+	Prune               bool
+	EmitEvery           int
+	MaxW, MaxCombs      int
+	MutW                int
+	Sem                 bool
+	TokSel              string
 }
 
 func boolTLA(b bool) string {
